@@ -470,6 +470,11 @@ namespace chaiscript {
       m_engine.set_state(t_state.engine_state);
     }
 
+#ifdef CHAISCRIPT_VERIF
+    /// Verification accessor: shape of the calling thread's evaluation state (read-only).
+    chaiscript::detail::Dispatch_Engine::Verif_Stack_Shape verif_stack_shape() { return m_engine.verif_stack_shape(); }
+#endif
+
     /// \returns All values in the local thread state, added through the add() function
     std::map<std::string, Boxed_Value> get_locals() const { return m_engine.get_locals(); }
 
